@@ -387,7 +387,10 @@ METHOD_KINDS = {
 
 def unit_methods(unit):
     from serif import Vector
-    _, kind, sizes = unit
+    _, kind, sizes = unit[:3]
+    policy = unit[3] if len(unit) > 3 else "fresh"
+    if policy != "fresh":
+        core.reset_globals(policy)          # CPython-like recycling of storage identities for this pass
     pytype, alpha = METHOD_KINDS[kind]
     agg = Agg()
     generic = set(dir(Vector))
@@ -400,7 +403,7 @@ def unit_methods(unit):
             if n and all(mask):
                 continue
             datasets.append([None if m else b for b, m in zip(base, mask)])
-    for name in names:
+    for name in (names if policy == "fresh" else []):
         cls_attr = getattr(pytype, name)
         is_prop = not callable(cls_attr)
         menus = [()] if is_prop else ARG_MENU
@@ -460,21 +463,23 @@ def unit_methods(unit):
                     getattr(a, name) if is_prop else getattr(a, name)(*args)
             except Exception:
                 continue
-            data = [alpha[0], alpha[1 % len(alpha)], alpha[0]]
-            for wl in ("int", "slice", "replace-all"):
+            for size, wl in [(3, "int"), (3, "slice"), (3, "replace-all"), (3, "int-twice"), (33, "int"), (33, "int-twice"), (33, "slice")]:
+                data = [alpha[i % len(alpha)] for i in range(size)]
                 d2 = list(data)
                 agg.evals += 1; agg.transitions += 3; agg.states += 1; agg.nontrivial += 1
-                case = {"kind": kind, "method": name, "args": list(args), "data": data, "write": wl,
-                        "history": ["call", "in-place write", "call again"]}
+                case = {"kind": kind, "method": name, "args": list(args), "data": data[:4], "size": size, "write": wl, "allocator": policy,
+                        "history": ["call", "in-place write(s)", "call again"]}
                 try:
                     v = Vector(list(data))
                     r1 = getattr(v, name) if is_prop else getattr(v, name)(*args)
                     if wl == "int":
                         v[0] = alpha[-1]; d2[0] = alpha[-1]
+                    elif wl == "int-twice":      # two writes: storage is swapped twice before the method is called again
+                        v[0] = alpha[-1]; v[1] = alpha[-1]; d2[0] = alpha[-1]; d2[1] = alpha[-1]
                     elif wl == "slice":
                         v[1:3] = [alpha[-1], alpha[-1]]; d2[1:3] = [alpha[-1], alpha[-1]]
                     else:
-                        v[[True, True, True]] = alpha[-1]; d2 = [alpha[-1]] * 3
+                        v[[True] * size] = alpha[-1]; d2 = [alpha[-1]] * size
                     r2 = getattr(v, name) if is_prop else getattr(v, name)(*args)
                 except Exception as e:
                     agg.violation(V(f"method.{kind}.{name}", "history-raises-" + type(e).__name__, case, None, repr(e)[:80]))
@@ -496,7 +501,7 @@ def unit_methods(unit):
 
 
 def check(ctx):
-    L = ctx.pick(2, 3)
+    L = ctx.pick(3, 4)
     kinds = list(ALPHA)
     units = [("bin", a, b, L) for a in kinds for b in kinds]
     units += [("bin", "date", "timedelta", L), ("bin", "int", "timedelta", 1)]
@@ -506,7 +511,7 @@ def check(ctx):
     parts += core.pmap(unit_dates, [("dates",)])
     parts += core.pmap(unit_table, [("tables",)])
     sizes = (0, 1, 2, 3)
-    parts += core.pmap(unit_methods, [("meth", k, sizes) for k in METHOD_KINDS])
+    parts += core.pmap(unit_methods, [("meth", k, sizes) for k in METHOD_KINDS] + [("meth", k, sizes, "recycle") for k in METHOD_KINDS])
     agg = core.merge_all(parts)
     agg.notes["bound"] = f"vector operands len<={L}; unary len<={L+1}; methods sizes 0..3 with every None subset"
     agg.notes["exhaustive"] = True
